@@ -49,6 +49,7 @@ func runC20(c *Ctx) {
 	r.NotCov = []string{"time itself, constant factors, allocation behaviour", "regex engines of ScanSQL", "recursion-driven cost in tree consumers (the collectors' double traversal is reported under C15)"}
 	r.Rule("rescan", "a tokenizer function whose loop walks input / lineStarts with a local index (not the tokenizer's own cursor) must not be reachable from a call site inside a per-token or per-comment loop")
 	r.Rule("string-accumulation", "no string is built by s = s + x (or s += x) on a loop-carried variable in tokenizer, parser or ast serialiser code; use strings.Builder")
+	r.Rule("memo-kept", "the fields a memo-resumed scan keeps its memo in are written, outside that scan, only by code that no loop of the package reaches (reset between inputs); a write reachable from a per-token loop drops the memo each time and restores the rescan")
 	r.Rule("input-copy", "string(t.input) (or another O(n) conversion of the whole input) inside a loop occurs only on a path that leaves the loop")
 	c20Rescan(c, p, "pkg/sql/tokenizer", nil)
 	c20Accum(c, p, nil, "pkg/sql/tokenizer", "pkg/sql/parser", "pkg/sql/ast")
@@ -66,6 +67,7 @@ func runC20(c *Ctx) {
 			c20Rescan(c, cp, "gosqlxsa/controls/c20", fired)
 			c20Accum(c, cp, fired, "gosqlxsa/controls/c20")
 			r.Control("rescan", fired["(*c20.Scanner).All|locate->locate"] && !fired["(*c20.Scanner).All|locateResumed->locateResumed"] && fired["resumed|(*c20.Scanner).locateResumed|memo"] && fired["(*c20.Scanner).All|locateForgetful->locateForgetful"], "controls/c20 Scanner.All calls locate (rescans, reported), locateResumed (memo read and written back, accepted) and locateForgetful (memo read but not written on the early return, reported)")
+			r.Control("memo-kept", fired["memo|(*c20.Scanner).locateResumed|memoCol|(*c20.Scanner).rewind"] && !fired["memo|(*c20.Scanner).locateResumed|memoCol|(*c20.Scanner).Reset"], "controls/c20 Scanner.rewind (drops the memo, called from the loop of All: reported) and Scanner.Reset (not reached from a loop: accepted)")
 			r.Control("string-accumulation", fired["c20.joinParts|concat#1"] && !fired["c20.joinBuilder|concat#1"], "controls/c20 joinParts (s += in a loop) and joinBuilder (strings.Builder)")
 			c20CursorSearch(c, cp, "gosqlxsa/controls/c20", fired)
 			r.Control("cursor-search-amortised", fired["(*c20.Scanner).peekQuote|search#1"] && !fired["(*c20.Scanner).skipToQuote|search#1"], "controls/c20 Scanner.peekQuote (searches the rest, may return without moving) and skipToQuote (moves to what it found, or fails)")
@@ -117,6 +119,7 @@ func c20Rescan(c *Ctx, p *core.Prog, scope string, fired map[string]bool) {
 	// fixed point (0, or len-1 counting down) instead of continuing from the tokenizer's cursor
 	rescanner := map[*ssa.Function]string{}
 	resumed := map[string]string{}
+	memoFns := map[*ssa.Function]bool{}
 	for _, fn := range fns {
 		for _, scc := range blockSCCs(fn, nil, nil, nil) {
 			in := blockSet(scc)
@@ -134,6 +137,7 @@ func c20Rescan(c *Ctx, p *core.Prog, scope string, fired map[string]bool) {
 					if what := isInputLen(bo.Y); what != "" {
 						if f := memoResumed(fn, ph, in); f != "" {
 							resumed[core.FnName(fn)+"|"+f] = p.Pos(ph.Pos())
+							memoFns[fn] = true
 							continue
 						}
 						rescanner[fn] = "loop over " + what + " with a local index"
@@ -170,6 +174,7 @@ func c20Rescan(c *Ctx, p *core.Prog, scope string, fired map[string]bool) {
 	if len(rk) > 0 {
 		r.Assume("memo-resumed scans (" + strings.Join(rk, ", ") + ") are linear in total when offsets are asked for in non-decreasing order; the tokenizer asks for token start, token end, comment start and comment end in source order, which is read, not proved")
 	}
+	c20MemoKept(c, p, scope, fns, memoFns, fired)
 	if len(rescanner) == 0 {
 		if fired == nil {
 			r.OK("rescan", "tokenizer", "-", "no function walks input/lineStarts with a local index that restarts on every call")
@@ -238,6 +243,105 @@ func c20Rescan(c *Ctx, p *core.Prog, scope string, fired map[string]bool) {
 	r.Extra("rescanning_functions", names)
 	if n == 0 {
 		r.OK("rescan", "tokenizer", "-", "rescanning functions "+strings.Join(names, ", ")+" are not called from inside a loop")
+	}
+}
+
+// c20MemoKept: the fields a memo-resumed scan writes (its memo) are written elsewhere only by code that runs a bounded
+// number of times per input: a store in another function that sits in a loop, or whose function is reachable from a call
+// site inside a loop of the package, drops the memo once per iteration and makes the next conversion rescan.
+func c20MemoKept(c *Ctx, p *core.Prog, scope string, fns []*ssa.Function, memoFns map[*ssa.Function]bool, fired map[string]bool) {
+	r := c.R
+	var ms []*ssa.Function
+	for f := range memoFns {
+		ms = append(ms, f)
+	}
+	sort.Slice(ms, func(i, j int) bool { return core.FnName(ms[i]) < core.FnName(ms[j]) })
+	inPkg := func(f *ssa.Function) bool { return f != nil && f.Blocks != nil && core.InPkgs(f, scope) }
+	g := p.Restrict(inPkg)
+	structOf := func(v ssa.Value) types.Type {
+		t := v.Type()
+		if pt, ok := t.Underlying().(*types.Pointer); ok {
+			return pt.Elem()
+		}
+		return t
+	}
+	for _, mf := range ms {
+		if len(mf.Params) == 0 {
+			continue
+		}
+		rt := structOf(mf.Params[0])
+		group := map[int]bool{}
+		for _, b := range mf.Blocks {
+			for _, ins := range b.Instrs {
+				if st, ok := ins.(*ssa.Store); ok {
+					if fa, ok := st.Addr.(*ssa.FieldAddr); ok && types.Identical(structOf(fa.X), rt) {
+						group[fa.Field] = true
+					}
+				}
+			}
+		}
+		n := 0
+		for _, fn := range fns {
+			if fn == mf || memoFns[fn] { // another memo-resumed scan sharing the fields maintains them itself
+				continue
+			}
+			var lb map[*ssa.BasicBlock]bool
+			for _, b := range fn.Blocks {
+				for _, ins := range b.Instrs {
+					st, ok := ins.(*ssa.Store)
+					if !ok {
+						continue
+					}
+					fa, ok := st.Addr.(*ssa.FieldAddr)
+					if !ok || !group[fa.Field] || !types.Identical(structOf(fa.X), rt) {
+						continue
+					}
+					if lb == nil {
+						lb = loopBlocks(fn)
+					}
+					key := "memo|" + core.FnName(mf) + "|" + core.FieldName(fa.X.Type(), fa.Field) + "|" + core.FnName(fn)
+					why := ""
+					if lb[b] {
+						why = "the store is inside a loop"
+					} else {
+						reach := g.ReachesIn(fn)
+						reach[fn] = true
+					outer:
+						for _, caller := range fns {
+							clb := loopBlocks(caller)
+							for _, cb := range caller.Blocks {
+								if !clb[cb] {
+									continue
+								}
+								for _, cin := range cb.Instrs {
+									if call, ok := cin.(ssa.CallInstruction); ok {
+										if callee := call.Common().StaticCallee(); callee != nil && reach[callee] {
+											why = "reached once per iteration of the loop in " + core.FnName(caller) + " (call of " + callee.Name() + " at " + p.Pos(call.Pos()) + ")"
+											break outer
+										}
+									}
+								}
+							}
+						}
+					}
+					n++
+					if fired != nil {
+						if why != "" {
+							fired[key] = true
+						}
+						continue
+					}
+					if why != "" {
+						r.Violate("memo-kept", key, p.Pos(st.Pos()), "writes the memo of "+mf.Name()+" outside it, and "+why+": every such write makes the next conversion start over, so the memo no longer bounds the total work")
+					} else {
+						r.OK("memo-kept", key, p.Pos(st.Pos()), "memo written outside "+mf.Name()+" only by code that no loop of the package reaches (once per input)")
+					}
+				}
+			}
+		}
+		if n == 0 && fired == nil {
+			r.OK("memo-kept", "memo|"+core.FnName(mf)+"|-", "-", "no other function writes the fields "+mf.Name()+" keeps its memo in")
+		}
 	}
 }
 
